@@ -92,8 +92,6 @@ func vfMintSession(sm *SessionManager, authenticated bool, createdAt int64, emai
 	return vfParseSetCookies(rec.Header()), nil
 }
 
-func vfTokenCacheLen(t *TraefikOidc) int { return vfCacheLen(t.tokenCache.cache) }
-func vfBlacklistLen(t *TraefikOidc) int  { return vfCacheLen(t.tokenBlacklist) }
 
 func vfDecode(codecs []securecookie.Codec, name, value string, dst *map[interface{}]interface{}) error {
 	return securecookie.DecodeMulti(name, value, dst, codecs...)
